@@ -24,7 +24,7 @@ REACH = ["rating", "create_rating", "__deepcopy__", "__init__", "rate"]
 SHARDS = {"quick": 15, "thorough": 15}
 
 POOL = [0, 0.0, -0.0, -1, -2.5, 1, 25, 25.0, 8.333, 5e-324, -5e-324, 1e-300, 1e300, -1e300, 1.7e308, 3, 1e-9, 100.0, 0.1]
-NAMES = [None, "bob", "Zoë", "名前", "a b", "0", "None", "x" * 40]
+NAMES = [None, "bob", "Zoë", "名前", "a b", "0", "None", "x" * 40, "bob ", "carol\n", " ", "\tdave", "0", "None", "a b  "]
 
 
 def floors(tier):
@@ -217,6 +217,18 @@ def probe_ctor(ctx, payload):
             ctx.violation("deepcopy/rating", "ctor", payload, dict(orig=[repr(r.mu), repr(r.sigma), r.name, r.id],
                                                                   copy=[repr(c.mu), repr(c.sigma), c.name, c.id], same_object=c is r),
                           model_name, "rating")
+    # the empty string is a name like any other for rating() and for deepcopy (only create_rating maps it to None, see
+    # ASSUMPTIONS): built through rating(), copied alone and nested, it must come back as ""
+    ctx.ev("deepcopy")
+    try:
+        r = model.rating(1.5, 0.5, "")
+        c = copy.deepcopy(r)
+        c2 = copy.deepcopy([[r]])[0][0]
+        if r.name != "" or c.name != "" or c2.name != "" or c.id != r.id:
+            ctx.violation("deepcopy/empty-name", "ctor", payload, dict(built=repr(r.name), copy=repr(c.name), nested_copy=repr(c2.name)),
+                          model_name, "empty-name")
+    except Exception as e:  # noqa: BLE001
+        ctx.violation("deepcopy/exception", "ctor", payload, dict(name="", exc=repr(e)), model_name, "empty-name")
     # ... of instances of application-side SUBCLASSES of the rating class too (inherited constructor / own constructor
     # signature / property-backed entity): whatever class the copy has, it is a distinct object with the same four values,
     # alone and inside nested team lists, and it is independent of the original
